@@ -317,12 +317,15 @@ def loader_pass(chk, quick):
             path = os.path.join(root, main)
             try:
                 sch = ZConfig.loadSchema(path)
-            except ZConfig.SchemaError as e:
-                from ..core import MachineryError
-                raise MachineryError("composed world %d is not a valid schema: %s" % (wi, e))
+            except Exception as e:
+                # the first pass has already compared this world with the specification (and reported the
+                # disagreement if the specification accepts it): nothing to feed the loader specification with
+                chk.extra.setdefault("worlds_refused_by_the_code", []).append("%d: %s" % (wi, str(e)[:120]))
+                continue
             ext.append({"external": True, "path": path, "rec": rec_of(project.digest_schema(sch)),
                         "xml": "<!-- composed world %d of C11: %s -->" % (wi, main)})
-        c01.explore(chk, ext, cap=(18 if quick else 26), maxlines=(3 if quick else 4), tree=True)
+        if ext:
+            c01.explore(chk, ext, cap=(18 if quick else 26), maxlines=(3 if quick else 4), tree=True)
     finally:
         shutil.rmtree(root, ignore_errors=True)
 
